@@ -2,24 +2,27 @@
 # matrix.sh [quick|thorough]  -- applies every own mutant and every seeded change to /repo in turn,
 # runs the check of the property it targets, reverts; writes /verif/seeded/MATRIX.md.
 TIER=${1:-quick}
+# EVAL_REPO / EVAL_VROOT as in eval_seed.sh
+REPO=${EVAL_REPO:-/repo}; VROOT=${EVAL_VROOT:-/verif}
+export VERIF_REPO=$REPO
 OUT=/verif/seeded/MATRIX.md
 cd /verif || exit 2
-if [ -n "$(git -C /repo status --porcelain --untracked-files=no)" ]; then echo "repo dirty"; exit 2; fi
-rm -rf /tmp/evidence-backup-matrix; cp -r /verif/evidence /tmp/evidence-backup-matrix
-restore() { git -C /repo checkout -- . ; rm -rf /verif/evidence; mv /tmp/evidence-backup-matrix /verif/evidence; }
+if [ -n "$(git -C $REPO status --porcelain --untracked-files=no)" ]; then echo "repo dirty"; exit 2; fi
+rm -rf /tmp/evidence-backup-matrix; cp -r $VROOT/evidence /tmp/evidence-backup-matrix
+restore() { git -C $REPO checkout -- . ; git -C $REPO reset -q --hard; rm -rf $VROOT/evidence; mv /tmp/evidence-backup-matrix $VROOT/evidence; }
 trap restore EXIT
 {
 echo "# Which check catches which change ($TIER tier)"
 echo
-echo "Each row: the change is applied to /repo (\`git -C /repo apply\`), the check of the property it targets is run, the change is reverted. exit 1 = caught (VIOLATION), 0 = missed, 2 = inconclusive."
+echo "Each row: the change is applied to the repository (\`git apply\`; a scratch worktree of /repo at the same HEAD when EVAL_REPO is set), the check of the property it targets is run, the change is reverted. exit 1 = caught (VIOLATION), 0 = missed, 2 = inconclusive."
 echo
 echo "| change | property | exit | first reported failure |"
 echo "|---|---|---|---|"
 } > $OUT
 run() { # name patch prop
-  git -C /repo apply "$2" 2>/dev/null || { echo "| $1 | $3 | n/a | patch does not apply to the current tree |" >> $OUT; return; }
-  o=$(./check $3 $TIER 2>&1); c=$?
-  git -C /repo checkout -- .
+  git -C $REPO apply "$2" 2>/dev/null || { echo "| $1 | $3 | n/a | patch does not apply to the current tree (written against an earlier HEAD; see its meta.json for the verdict at that time) |" >> $OUT; return; }
+  o=$($VROOT/check $3 $TIER 2>&1); c=$?
+  git -C $REPO checkout -- .
   sig=$(echo "$o" | grep -E '^violation:' | head -1 | cut -c12-150 | tr '|' '/' )
   [ -z "$sig" ] && [ $c -eq 1 ] && sig="process crash / sanitizer report (see replay file)"
   echo "| $1 | $3 | $c | $sig |" >> $OUT
